@@ -810,7 +810,7 @@ def chain_history(r, scen):
                 items.append("inv %s %s %x" % (t[1], kind, kn(k)))
             elif kind == "scan":
                 l, le, rk, re_, mx, rtl = unhex(t[4]), t[5], unhex(t[6]), t[7], int(t[8]), t[9] == "1"
-                if mx != 0 or rtl or len(l) > 8 or len(rk) > 8:
+                if len(l) > 8 or len(rk) > 8 or (rtl and (mx != 1 or re_ != "INF")):
                     return None
                 lo = 0 if le == "INF" else kn(l) + (1 if le == "EX" else 0)
                 if re_ == "INF":
@@ -820,7 +820,7 @@ def chain_history(r, scen):
                     if hv < 0:
                         return None
                     hi = "%x" % hv
-                items.append("inv %s scan %x %s" % (t[1], lo, hi))
+                items.append("inv %s scan %x %s %d %d" % (t[1], lo, hi, mx, 1 if rtl else 0))
                 has_scan = True
             else:
                 return None
@@ -849,6 +849,12 @@ def chain_history(r, scen):
             items.append("res %s %s" % (t[1], out))
     if not has_scan:
         return None
+    # what the re-validation of the recorded (version, node) pairs found once every operation had completed:
+    # the model must agree (this makes version changes observable: an insert bumps, a remove does not)
+    for (tid, stale, nvn, args) in r.reval:
+        if args.startswith("get "):
+            continue
+        items.append("reval %d %d" % (tid, 1 if stale else 0))
     return " ; ".join(items)
 
 
@@ -872,7 +878,7 @@ def border_batch(lines, workdir):
 
 
 def run_conc_property(res, tag, want, shapes, kinds, scans, budget_quick, budget_thorough, tie_shapes=("single", "last", "empty"),
-                      strategies_quick=("preempt1",), strategies_thorough=("preempt1", "preempt2", "pct"), use_catalogue=True, chain_tie=False):
+                      strategies_quick=("preempt1",), strategies_thorough=("preempt1", "preempt2", "pct"), use_catalogue=True, chain_tie=False, catalogue_filter=None):
     """generic flow for a property explored under the scheduler with verified oracles"""
     pid = res.pid
     st = C.property_status(pid)
@@ -943,6 +949,8 @@ def run_conc_property(res, tag, want, shapes, kinds, scans, budget_quick, budget
         for sc in catalogue():
             if not scans and any(o.startswith(("scan", "iscan")) for ops in sc.threads for o in ops):
                 continue
+            if catalogue_filter is not None and not catalogue_filter(sc):
+                continue
             for strat, bud in (("preempt1", 1600), ("race2", 200 if res.tier == "quick" else 3000)):
                 n, v, steps, dist, runs = explore_runs(binary, sc, strat, wd, bud, rng, want)
                 total_runs += n
@@ -994,7 +1002,8 @@ def run_conc_property(res, tag, want, shapes, kinds, scans, budget_quick, budget
             if vdt in ("REJECT", "ERROR"):
                 chain_rej.append((vdt, meta, ln))
     res.cov["chain_model_tie"] = dict(histories=len(chain_lines), verdicts=chain_verdicts,
-                                      model="ChainDefs.cstep true (multi-border scan hand-over), searched by ocaml/chain_main.ml")
+                                      model="ChainLimDefs.lstep over ChainDefs.cstep writers (multi-border scan hand-over; forward, size-limited and "
+                                            "right-to-left scans; staleness of the recorded pairs observed), searched by ocaml/chain_main.ml")
     res.cov.update(
         programs=total_runs, evaluations=total_runs, distinct_nontrivial=distinct,
         traces_validated_against_impl=len(tie_lines) - len(rejected) + chain_verdicts.get("ACCEPT", 0),
